@@ -96,7 +96,8 @@ class Monitor:
 
 # ------------------------------------------------------------------------------------------------ values
 
-K8 = ['None', '1', '1.0', '2', 'nan#1', 'nan#2', "'a'", 'dt', "'aa'", "'b'", '+inf', '-inf']      # the last four only in the `strings` / `infs` suites
+K8 = ['None', '1', '1.0', '2', 'nan#1', 'nan#2', "'a'", 'dt', "'aa'", "'b'", '+inf', '-inf', '100001', '100002', '0.0', '1e-9', '100001.0']      # from 'aa' on only in the `strings` / `infs` / `close` suites
+KCLOSE = [12, 13, 14, 15, 16]         # numbers that are close but different (ids differing by 1 beyond 1e5, 0 and 1e-9): different keys; 100001 == 100001.0 is one key
 KINF = [10, 11, 4, 5, 1]              # +inf, -inf, nan#1, nan#2, 1: infinities are ordinary float keys, equal only to themselves
 KSTR = [6, 8, 9, 1]                   # 'a', 'aa', 'b', 1: strings of different lengths ('aa' < 'b' alphabetically, but longer)
 K6 = [0, 1, 2, 4, 5, 6]
@@ -127,6 +128,10 @@ def mk(i, nans):
         return float('inf')
     if n == '-inf':
         return float('-inf')
+    if n in ('100001', '100002'):
+        return int(n)
+    if n in ('0.0', '1e-9', '100001.0'):
+        return float(n)
     return nans[n]
 
 
@@ -399,6 +404,19 @@ def check_spellings(case):
         ok, res = _call(out, 'x.join(y, %s) %s' % (name, lab), f, dict(op='join', spelling='callable'))
         if ok:
             check_join(out, 'x.join(y, %s) %s' % (name, lab), res, lrows, rrows, lf, rf, ['k'], None, dict(op='join', spelling='callable'))
+    # a computed key that tells an int from the equal float ('int:1' / 'float:1.0'): every row's key is the formula of THAT row
+    tkey = lambda k: '%s:%r' % (type(k).__name__, k)
+    tf = lambda row: (tkey(row['k']),)
+    out.sub(2)
+    yt = dictable(dict(tk=[tkey(t[0]) for t in rk], w=list(range(len(rk)))))            # the right table carries the typed key as a plain column
+    rrt = [dict(tk=tkey(t[0]), w=i) for i, t in enumerate(rk)]
+    rt = lambda row: (row['tk'],)
+    ok, res = _call(out, "x.join(y_typed, lambda k: type+repr, 'tk') %s" % lab, lambda: x.join(yt, lambda k: tkey(k), 'tk'), dict(op='join', spelling='callable-typed'))
+    if ok:
+        check_join(out, "x.join(y_typed, lambda k: type+repr, 'tk') %s" % lab, res, lrows, rrt, tf, rt, ['tk'], None, dict(op='join', spelling='callable-typed'), jcol='no-shared-column')
+    ok, res = _call(out, "x.xor(y_typed, lambda k: type+repr, 'tk') %s" % lab, lambda: x.xor(yt, lambda k: tkey(k), 'tk'), dict(op='xor', spelling='callable-typed'))
+    if ok:
+        check_xor(out, "x.xor(y_typed, lambda k: type+repr, 'tk') %s" % lab, res, lrows, rrt, tf, rt, ['k', 'v', 'j'], 'v', dict(op='xor', spelling='callable-typed'))
     out.sub()
     ok, res = _call(out, 'x.xor(y, lambda k: f(k), \'k\') %s' % lab, lambda: x.xor(y, lambda k: _f21(k), 'k'), dict(op='xor', spelling='callable'))
     if ok:
@@ -602,6 +620,8 @@ def suites(tier, seed):
         S.append(Suite('modes', lambda: gen_basic(K3M, 3, 3), check_modes,
                        rule='one key column over {1, nan#1, a}: all pairs 0..3 x 0..3 rows (key groups up to 3 x 3) sharing a non-key column whose cells are None, strings, '
                             'a tuple and a list x every mode (None,l,r,0,1,left,rhs,callable); non-trivial = a key occurring twice on one side', bounds=dict(left_rows=3, right_rows=3, key_values=3)))
+        S.append(Suite('close', lambda: gen_basic(KCLOSE, 2, 2), check_basic,
+                       rule='one key column over {100001, 100002, 0.0, 1e-9, 100001.0}: close but different numbers are different keys; all pairs 0..2 x 0..2 rows', bounds=dict(key_values=5)))
         S.append(Suite('strings', lambda: gen_basic(KSTR, 3, 2), check_basic,
                        rule="one key column over {'a','aa','b',1}: strings of different lengths, the longer one alphabetically smaller; all pairs 0..3 x 0..2 rows", bounds=dict(key_values=4)))
         S.append(Suite('infs', lambda: gen_basic(KINF, 2, 2), check_basic,
@@ -623,6 +643,8 @@ def suites(tier, seed):
         S.append(Suite('modes', lambda: gen_basic(K4, 4, 3), check_modes,
                        rule='one key column over {1, nan#1, nan#2, a}: all pairs 0..4 x 0..3 rows sharing a non-key column whose cells are None, strings, a tuple and a list x every mode',
                        bounds=dict(left_rows=4, right_rows=3, key_values=4)))
+        S.append(Suite('close', lambda: gen_basic(KCLOSE, 3, 3), check_basic,
+                       rule='one key column over {100001, 100002, 0.0, 1e-9, 100001.0}: close but different numbers are different keys; all pairs 0..3 x 0..3 rows', bounds=dict(key_values=5)))
         S.append(Suite('strings', lambda: gen_basic(KSTR, 3, 3), check_basic,
                        rule="one key column over {'a','aa','b',1}: strings of different lengths; all pairs 0..3 x 0..3 rows", bounds=dict(key_values=4)))
         S.append(Suite('infs', lambda: gen_basic(KINF, 3, 3), check_basic,
